@@ -34,7 +34,7 @@ RULE = ("random scripts N=8..40 indices; distinct = canonical script JSON; non-t
 REQUIRED_BUCKETS = ["primary-closed", "primary-raises", "primary-raises-while-fallback-in-step", "fallback-closed", "fallback-late-start", "lag:-1", "lag:0",
                     "lag:1", "lag:2", "recovery-to-primary", "both-invalid", "fallback-value-used",
                     "primary-closed-before-any-failure", "other-terms:0", "other-terms:2",
-                    "tier-B(real FallbackFormulaMetricFetcher)", "tier-B:pv-meter", "tier-B:grid-successor-meters", "tier-B:grid-successor-meters-reactive",
+                    "tier-B(real FallbackFormulaMetricFetcher)", "tier-B:pv-meter", "tier-B:grid-successor-meters", "tier-B:grid-successor-meters-reactive", "tier-B:producer-chp-meter", "tier-B:grid-successor-ev-meter", "tier-B:grid-successor-battery-meter",
                     "term-with-fallback-and-nones-are-zeros"]
 REQUIRED_COUNTERS = ["outputs_decoded", "scripts_run"]
 ASSUMPTIONS = ["tier A: the fallback is a test double at the public FallbackMetricFetcher seam; tier B: real PVPowerFormula + "
@@ -68,7 +68,8 @@ def gen(rng: Any, tier: str, i: int) -> Any:
     fault = rng.choice([None, None, "close_primary", "close_primary", "raise_primary", "close_fallback"])
     if rng.random() < 0.3:
         # tier B: the real PVPowerFormula with its real FallbackFormulaMetricFetcher over a fake resampler
-        topo = rng.choice(["pv-meter", "pv-meter", "grid-successor-meters", "grid-successor-meters-reactive"])
+        topo = rng.choice(["pv-meter", "pv-meter", "grid-successor-meters", "grid-successor-meters-reactive",
+                           "producer-chp-meter", "grid-successor-ev-meter", "grid-successor-battery-meter"])
         return {"tier": "B", "topo": topo, "N": N, "pmask": pmask, "fmask": [True] * N, "lag": 0, "fallback_skip": 0,
                 "n_other": 1,
                 "fault": rng.choice([None, None, "close_primary"]), "fault_at": rng.randint(0, N - 1),
@@ -271,6 +272,28 @@ async def _drive_b(case: dict[str, Any], out: dict[str, Any]) -> None:
 
             formula_cls = GridReactivePowerFormula
             wanted_metric = "REACTIVE_POWER"
+    elif case.get("topo") == "producer-chp-meter":
+        # the other dedicated-meter kinds: a CHP meter (3 -> CHPs 4, 5) next to a PV meter, through ProducerPowerFormula
+        from frequenz.sdk.timeseries.formula_engine._formula_generators import ProducerPowerFormula
+
+        comps = [Component(1, C.GRID), Component(2, C.METER), Component(3, C.METER), Component(6, C.METER),
+                 Component(4, C.CHP), Component(5, C.CHP), Component(7, C.INVERTER, InverterType.SOLAR)]
+        conns = [Connection(1, 2), Connection(2, 3), Connection(2, 6), Connection(3, 4), Connection(3, 5), Connection(6, 7)]
+        formula_cls = ProducerPowerFormula
+    elif case.get("topo") in ("grid-successor-ev-meter", "grid-successor-battery-meter"):
+        # ... an EV-charger meter (3 -> chargers 4, 5) / a battery meter (3 -> battery inverters 4, 5 -> batteries 8, 9)
+        # next to a PV meter, both directly below the grid, through GridPowerFormula
+        from frequenz.sdk.timeseries.formula_engine._formula_generators import GridPowerFormula
+
+        comps = [Component(1, C.GRID), Component(3, C.METER), Component(6, C.METER), Component(7, C.INVERTER, InverterType.SOLAR)]
+        conns = [Connection(1, 3), Connection(1, 6), Connection(3, 4), Connection(3, 5), Connection(6, 7)]
+        if case["topo"] == "grid-successor-ev-meter":
+            comps += [Component(4, C.EV_CHARGER), Component(5, C.EV_CHARGER)]
+        else:
+            comps += [Component(4, C.INVERTER, InverterType.BATTERY), Component(5, C.INVERTER, InverterType.BATTERY),
+                      Component(8, C.BATTERY), Component(9, C.BATTERY)]
+            conns += [Connection(4, 8), Connection(5, 9)]
+        formula_cls = GridPowerFormula
     else:
         comps = [Component(1, C.GRID), Component(2, C.METER), Component(3, C.METER), Component(6, C.METER),
                  Component(4, C.INVERTER, InverterType.SOLAR), Component(5, C.INVERTER, InverterType.SOLAR),
@@ -394,7 +417,7 @@ def check(case: dict[str, Any], rec: Any) -> None:
     recv = log.get("fallback_received", [])
     g = recv[0] if recv else None  # first fallback index the started fallback delivered
     window_end = None if f is None else (max(f + 1, g) if g is not None else total)
-    if f is not None and g is None and fault != "close_fallback" and case.get("tier") != "B" \
+    if f is not None and g is None and fault != "close_fallback" \
             and N - f >= case["fallback_skip"] + abs(case["lag"]) + 8:
         # "bounded start-up delay": the primary failed long before the end, the fallback stream kept delivering, and
         # yet not a single fallback sample was ever read
